@@ -126,6 +126,13 @@ def run_promo(case):
     got = attempt(lambda: make_promotable(kind, b) != x)
     require(got is (not exp), 'promotable != bitstring is not the negation', got=got, kind=kind)
     require(x.bin == a, 'comparison modified the bitstring')
+    # the same operand object compared again and again (a comparison must not use anything up), and a BytesIO whose stream position is not 0
+    if kind not in ('gen', 'iter_truthy', 'map_truthy'):
+        p = make_promotable(kind, b)
+        if kind == 'BytesIO' and len(b) >= 8:
+            p.seek(1 + len(b) // 16)
+        seq = [attempt(lambda: x == p), attempt(lambda: x != p), attempt(lambda: p == x), attempt(lambda: x == p), attempt(lambda: p != x)]
+        require(seq == [exp, not exp, exp, exp, not exp], 'repeated comparisons with the same operand object do not all agree with the model', got=seq, expected=exp, kind=kind)
     return {'nt': len(a) > 0, 'labels': [kind, case['rel'], 'eq' if exp else 'ne']}
 
 
